@@ -57,6 +57,8 @@ pub struct PReport {
     pub reset: bool,
     pub dup: bool,
     pub repr: bool,
+    /// C18: a heap allocation inside a real feed/poll/reset call made by this transition
+    pub alloc: bool,
 }
 
 #[derive(Clone, PartialEq, Debug)]
@@ -445,6 +447,69 @@ impl System for PollSys {
         }
     }
     fn step(&self, s: &PoState, a: &PoAct) -> Step<PoState> {
+        let before = tl_api_allocs();
+        let mut r = self.step_inner(s, a);
+        let n = tl_api_allocs() - before;
+        if self.report.alloc && n > 0 {
+            r.violations.push(self.vx("no-heap-allocation", "scanner-call", || format!("{} heap allocation(s) inside the real scanner call(s) of action {}", n, self.render(a))));
+        }
+        r
+    }
+    fn key(&self, s: &PoState) -> (u128, Obs) {
+        self.key_inner(s)
+    }
+    fn n_classes(&self) -> usize {
+        8
+    }
+    fn class_name(&self, i: usize) -> String {
+        ["feed-contributing-cc", "feed-cc-probe(concretisation)", "feed-other(expanded)", "feed-must-be-transparent", "poll", "tick-1ms", "reset", "reset-probe"][i].to_string()
+    }
+    fn class_of(&self, a: &PoAct) -> usize {
+        match a {
+            PoAct::Cc(..) => 0,
+            PoAct::CcProbe(..) => 1,
+            PoAct::Other(..) => 2,
+            PoAct::Transparent(..) => 3,
+            PoAct::Poll => 4,
+            PoAct::Tick => 5,
+            PoAct::Reset => 6,
+            PoAct::ResetProbe => 7,
+        }
+    }
+    fn render(&self, a: &PoAct) -> String {
+        match a {
+            PoAct::Cc(c, v) => format!("cc:{}:{}:{}", self.ch, c, v),
+            PoAct::CcProbe(c, v) => format!("ccprobe:{}:{}:{}", self.ch, c, v),
+            PoAct::Other(i) => {
+                let (s, a, b) = self.others[*i as usize];
+                format!("raw:{}:{}:{}", s, a, b)
+            }
+            PoAct::Transparent(i) => {
+                let (s, a, b) = self.noncontrib[*i as usize];
+                format!("transparent:{}:{}:{}", s, a, b)
+            }
+            PoAct::Poll => format!("poll:{}", self.ch),
+            PoAct::Tick => "tick".to_string(),
+            PoAct::Reset => "reset".to_string(),
+            PoAct::ResetProbe => "resetprobe".to_string(),
+        }
+    }
+    fn rust_preamble(&self) -> String {
+        format!("// build with RUSTFLAGS=\"--cfg helgoboss_midi_verif\" for the mock clock\n    let mut scanner = helgoboss_midi::PollingParameterNumberMessageScanner::new(std::time::Duration::from_millis({}));\n    let mut clock = 0u64;", self.timeout)
+    }
+    fn rust_line(&self, a: &PoAct) -> String {
+        match a {
+            PoAct::Cc(c, v) | PoAct::CcProbe(c, v) => format!("println!(\"{{:?}}\", scanner.feed(&helgoboss_midi::test_util::control_change({}, {}, {})));", self.ch, c, v),
+            PoAct::Other(_) | PoAct::Transparent(_) => format!("// feed {}", self.render(a)),
+            PoAct::Poll => format!("println!(\"{{:?}}\", scanner.poll(helgoboss_midi::test_util::channel({})));", self.ch),
+            PoAct::Tick => "clock += 1; helgoboss_midi::verif_hooks::set_now_millis(clock); // (std::thread::sleep(1ms) with the real clock)".to_string(),
+            PoAct::Reset | PoAct::ResetProbe => "scanner.reset();".to_string(),
+        }
+    }
+}
+
+impl PollSys {
+    fn step_inner(&self, s: &PoState, a: &PoAct) -> Step<PoState> {
         match a {
             PoAct::Cc(c, v) => self.do_feed(s, 0xB0 | self.ch, *c, *v, true),
             PoAct::CcProbe(c, v) => self.do_feed(s, 0xB0 | self.ch, *c, *v, false),
@@ -513,7 +578,7 @@ impl System for PollSys {
             }
         }
     }
-    fn key(&self, s: &PoState) -> (u128, Obs) {
+    fn key_inner(&self, s: &PoState) -> (u128, Obs) {
         let mut o = s.ob;
         if let Some((b, since)) = o.owed {
             o.owed = Some((b, (s.now - since).min(self.cap)));
@@ -522,54 +587,6 @@ impl System for PollSys {
             o.lsbp = Some((s.now - since).min(self.cap));
         }
         (scanner_fp(&s.sc, s.now, self.cap), o)
-    }
-    fn n_classes(&self) -> usize {
-        8
-    }
-    fn class_name(&self, i: usize) -> String {
-        ["feed-contributing-cc", "feed-cc-probe(concretisation)", "feed-other(expanded)", "feed-must-be-transparent", "poll", "tick-1ms", "reset", "reset-probe"][i].to_string()
-    }
-    fn class_of(&self, a: &PoAct) -> usize {
-        match a {
-            PoAct::Cc(..) => 0,
-            PoAct::CcProbe(..) => 1,
-            PoAct::Other(..) => 2,
-            PoAct::Transparent(..) => 3,
-            PoAct::Poll => 4,
-            PoAct::Tick => 5,
-            PoAct::Reset => 6,
-            PoAct::ResetProbe => 7,
-        }
-    }
-    fn render(&self, a: &PoAct) -> String {
-        match a {
-            PoAct::Cc(c, v) => format!("cc:{}:{}:{}", self.ch, c, v),
-            PoAct::CcProbe(c, v) => format!("ccprobe:{}:{}:{}", self.ch, c, v),
-            PoAct::Other(i) => {
-                let (s, a, b) = self.others[*i as usize];
-                format!("raw:{}:{}:{}", s, a, b)
-            }
-            PoAct::Transparent(i) => {
-                let (s, a, b) = self.noncontrib[*i as usize];
-                format!("transparent:{}:{}:{}", s, a, b)
-            }
-            PoAct::Poll => format!("poll:{}", self.ch),
-            PoAct::Tick => "tick".to_string(),
-            PoAct::Reset => "reset".to_string(),
-            PoAct::ResetProbe => "resetprobe".to_string(),
-        }
-    }
-    fn rust_preamble(&self) -> String {
-        format!("// build with RUSTFLAGS=\"--cfg helgoboss_midi_verif\" for the mock clock\n    let mut scanner = helgoboss_midi::PollingParameterNumberMessageScanner::new(std::time::Duration::from_millis({}));\n    let mut clock = 0u64;", self.timeout)
-    }
-    fn rust_line(&self, a: &PoAct) -> String {
-        match a {
-            PoAct::Cc(c, v) | PoAct::CcProbe(c, v) => format!("println!(\"{{:?}}\", scanner.feed(&helgoboss_midi::test_util::control_change({}, {}, {})));", self.ch, c, v),
-            PoAct::Other(_) | PoAct::Transparent(_) => format!("// feed {}", self.render(a)),
-            PoAct::Poll => format!("println!(\"{{:?}}\", scanner.poll(helgoboss_midi::test_util::channel({})));", self.ch),
-            PoAct::Tick => "clock += 1; helgoboss_midi::verif_hooks::set_now_millis(clock); // (std::thread::sleep(1ms) with the real clock)".to_string(),
-            PoAct::Reset | PoAct::ResetProbe => "scanner.reset();".to_string(),
-        }
     }
 }
 
